@@ -455,6 +455,16 @@ int main (int argc, char **argv)
 			printf ("LOADBASIS %d\n", rv);
 			free_basis (B);
 		}
+		else if (!strcmp (op, "LOADBASISQ"))
+		{
+			/* LOADBASISQ <cs> <rs> : the same basis through mpq_QSload_basis (a QSbasis object) instead of the array form */
+			QSbasis *B = arg_basis (1);
+			int rv = -1;
+			if (B && B->nstruct == mpq_QSget_colcount (P) && B->nrows == mpq_QSget_rowcount (P))
+				rv = mpq_QSload_basis (P, B);
+			printf ("LOADBASIS %d\n", rv);
+			free_basis (B);
+		}
 		else if (!strcmp (op, "LOADBASIS"))
 		{
 			int n = mpq_QSget_colcount (P), m = mpq_QSget_rowcount (P), rv;
